@@ -2,11 +2,11 @@
 (shared and distinct), raising validators / bodies, generators that are abandoned or closed, nested different functions."""
 from __future__ import annotations
 import random, json, sys
-from ..harness import scn, gen, obs as O, pyeval
+from ..harness import impl, scn, gen, obs as O, pyeval
 from . import base_scn
 
 pid = 'C08'
-gen_modules = ['tr_state', 'tr_validators', 'tr_has_patcher', 'tr_contracts', 'tr_decorators', 'tr_pin_contracts']
+gen_modules = ['tr_state', 'tr_validators', 'tr_has_patcher', 'tr_contracts', 'tr_decorators', 'tr_pin_contracts', 'tr_rest_validators', 'tr_rest_patcher', 'tr_rest_state', 'tr_dispatch', 'tr_rest_dispatch']
 model_targets = ['Sem/Scenario.v']
 hand_modelled = ['coq/Py/Sig.v', 'coq/Sem/Model.v']
 explanation = ('Frame theorems about patch/unpatch and the debug brackets of the generated wrappers; correspondence + monitor over random call '
@@ -104,3 +104,96 @@ _me = sys.modules[__name__]
 def run(ctx, fr, model_available=True): return base_scn.run(_me, ctx, fr, model_available)
 def search(ctx, fr, model_available=True): return base_scn.search(_me, ctx, fr, model_available)
 classify = base_scn.classify
+
+
+# ---------------------------------------------------------------- dispatch, test cases, tracing, memory tracking
+AUX_SRC = r"""
+import deal, sys, socket, warnings
+warnings.simplefilter("ignore")
+from deal._state import state
+
+def snap():
+    return (state.debug, sys.stdout, sys.stderr, socket.socket, sys.gettrace(), list(sys.meta_path))
+def same(a, b):
+    return all(x is y if not isinstance(x, (bool, list)) else x == y for x, y in zip(a, b))
+def attempt(fn, *a, **k):
+    try: fn(*a, **k)
+    except BaseException: pass
+
+def probe():
+    bad = []
+    def check(name, fn, *a, **k):
+        before = snap(); attempt(fn, *a, **k); after = snap()
+        if not same(before, after):
+            names = ["switch", "stdout", "stderr", "socket", "trace hook", "meta_path"]
+            bad.append(name + ": " + ", ".join(n for n, x, y in zip(names, before, after) if not same((x,), (y,))) + " not as before")
+    for enabled in (True, False):
+        (deal.enable if enabled else deal.disable)()
+        tag = "enabled" if enabled else "disabled"
+        # dispatch: return, raise, no match, recursion through the same dispatch object
+        @deal.dispatch
+        def fact(n): raise NotImplementedError
+        @fact.register
+        @deal.pre(lambda n: n <= 0)
+        def _(n): return 1
+        @fact.register
+        @deal.pre(lambda n: 0 < n < 50)
+        def _(n): return n * fact(n - 1)
+        @fact.register
+        @deal.pre(lambda n: n == 99)
+        def _(n): raise ValueError("body")
+        for arg in (0, 1, 4, 99, 70):
+            check(f"dispatch fact({arg}) [{tag}]", fact, arg)
+        # test cases: run (passing and failing), iteration
+        @deal.pre(lambda x: x > 0)
+        @deal.has()
+        def f(x: int) -> int: return x
+        @deal.pre(lambda x: x > 0)
+        def g(x: int) -> int: raise ValueError("body")
+        check(f"cases(f)() [{tag}]", lambda: deal.cases(f, count=5, check_types=False)())
+        check(f"cases(g)() [{tag}]", lambda: deal.cases(g, count=5, check_types=False)())
+        check(f"iterate cases(f) [{tag}]", lambda: [c() for c in deal.cases(f, count=5, check_types=False)])
+        # tracing, with and without a tracer already installed
+        from deal._trace import trace
+        def plain(x): return x + 1
+        def boom(x): raise ValueError("body")
+        check(f"trace(plain) [{tag}]", trace, plain, x=1)
+        check(f"trace(boom) [{tag}]", trace, boom, x=1)
+        def my_tracer(frame, event, arg): return None
+        sys.settrace(my_tracer)
+        try:
+            check(f"trace(plain) under a tracer [{tag}]", trace, plain, x=1)
+            check(f"trace(boom) under a tracer [{tag}]", trace, boom, x=1)
+            from deal._cli._test import fast_iterator
+            check(f"fast_iterator, exhausted [{tag}]", lambda: list(fast_iterator([1, 2, 3])))
+            def partial():
+                it = fast_iterator([1, 2, 3]); next(it); it.close()
+            check(f"fast_iterator, closed early [{tag}]", partial)
+        finally:
+            sys.settrace(None)
+        # memory tracking
+        from deal._mem_test import MemoryTracker
+        def tracked(raises):
+            t = MemoryTracker()
+            with t:
+                if raises: raise ValueError("body")
+        check(f"MemoryTracker [{tag}]", tracked, False)
+        check(f"MemoryTracker, body raises [{tag}]", tracked, True)
+    deal.enable()
+    return bad
+"""
+
+
+def aux_probe(ctx, fr):
+    r = impl.run_impl('pyexec.py', {'src': AUX_SRC, 'calls': [['probe', []]]}, timeout=900)[0]
+    fr.evaluations += 1; fr.samples.append({'family': 'dispatch / cases / trace / memory probe', 'result': r})
+    if isinstance(r, dict) and 'error' in r:
+        fr.errors.append('C08 aux probe failed: ' + str(r['error'])[:500]); return
+    for what in (r or []):
+        fr.violations.append({'scenario': {'family': 'aux-probe', 'what': what}, 'impl': r, 'what': 'global state not restored after ' + what, 'signature': None})
+
+
+_base_run = run
+def run(ctx, fr, model_available=True):
+    _base_run(ctx, fr, model_available)
+    aux_probe(ctx, fr)
